@@ -2021,6 +2021,26 @@ impl Element {
         Err(AutosarDataError::NoFilesInModel)
     }
 
+    /// get the set of all files of the model, which is the file set of the root element
+    ///
+    /// Like `file_membership()` this only uses the locks of the element and its ancestors, with a time limit
+    fn model_file_set(&self) -> Result<HashSet<WeakArxmlFile>, AutosarDataError> {
+        let mut cur_elem = self.clone();
+        loop {
+            let locked_cur_elem = cur_elem
+                .0
+                .try_read_for(std::time::Duration::from_millis(10))
+                .ok_or(AutosarDataError::ParentElementLocked)?;
+            match locked_cur_elem.parent()? {
+                Some(parent) => {
+                    drop(locked_cur_elem);
+                    cur_elem = parent;
+                }
+                None => return Ok(locked_cur_elem.file_membership.clone()),
+            }
+        }
+    }
+
     /// make the file membership of a moved element fit its new parent
     ///
     /// An element can only be restricted to files that contain its parent, and only if the parent is splittable.
@@ -2106,7 +2126,8 @@ impl Element {
     pub fn add_to_file(&self, file: &ArxmlFile) -> Result<(), AutosarDataError> {
         let parent_splittable = self.parent()?.is_none_or(|p| p.element_type().splittable() != 0);
         if parent_splittable {
-            if file.model()? == self.model()? {
+            // the file must be one of the files of the model; a file that was removed from the model does not qualify
+            if file.model()? == self.model()? && self.model_file_set()?.contains(&file.downgrade()) {
                 let weak_file = file.downgrade();
                 // current_fileset is the set of files which contain the current element
                 let (_, current_fileset) = self.file_membership()?;
